@@ -13,12 +13,14 @@ import logging
 from dataclasses import dataclass
 from typing import TYPE_CHECKING
 
+from happysimulator.components.queue import QueueNotifyEvent
 from happysimulator.components.queue_policy import FIFOQueue, QueuePolicy
 from happysimulator.components.queued_resource import QueuedResource
 from happysimulator.components.server.concurrency import (
     ConcurrencyModel,
     FixedConcurrency,
 )
+from happysimulator.core.sim_future import _get_active_heap
 from happysimulator.distributions.constant import ConstantLatency
 
 if TYPE_CHECKING:
@@ -103,6 +105,12 @@ class Server(QueuedResource):
         else:
             self._concurrency_model = concurrency
 
+        # A model whose limit can grow at runtime tells us when it does, so that
+        # requests already waiting in the queue start at once.
+        subscribe = getattr(self._concurrency_model, "on_limit_increase", None)
+        if callable(subscribe):
+            subscribe(self._wake_driver)
+
         self._service_time = service_time or ConstantLatency(0.01)
         self._downstream = downstream
 
@@ -125,6 +133,21 @@ class Server(QueuedResource):
         if self._downstream is not None:
             return [self._downstream]
         return []
+
+    def _wake_driver(self) -> None:
+        """Capacity appeared without a completion: make the driver look at the queue.
+
+        The driver polls only on a notify (enqueue into an empty queue) or a
+        completion, so a raised limit would otherwise leave queued requests
+        waiting beside free slots.  The limit is changed from another entity's
+        handler, not from ours, so the wake-up goes straight onto the running
+        simulation's heap (as ``SimFuture.resolve`` does).  Outside a running
+        simulation nothing can be waiting yet.
+        """
+        heap = _get_active_heap()
+        if heap is None or self._clock is None:
+            return
+        heap.push(QueueNotifyEvent(time=self.now, target=self.driver, queue_entity=self.queue))
 
     @property
     def downstream(self) -> Entity | None:
